@@ -124,6 +124,29 @@ theorem generate_bad_arg (dry : Bool) (len : Int) (exts : Array Ext) (nbFrames :
         0 ≤ e.frame ∧ e.frame < max nbFrames 0 ∧ 3 ≤ e.id ∧ e.id ≤ 127) :=
   ⟨generate_badArg dry len exts nbFrames pad hl hn0, fun _ h => generate_ok_valid h⟩
 
+/-- **generate_size (argument validation, payload length).**  IDs and frame indices valid, `nb_frames ≤ 48`,
+    but SOME extension — anywhere in the array, also one that the generator would emit inside a repeat
+    block — has an inadmissible payload length (`LenOk` fails: `len < 0`, or a short ID 3..31 with `len > 1`).
+    Then `generate` never succeeds: it returns `OPUS_BAD_ARG`, unless one of the buffer checks executed on the
+    way to that extension fails first, which gives `OPUS_BUFFER_TOO_SMALL` exactly as in C (the checks and
+    writes of the C function are the list `(genOps exts nbF).ops`; `needsPass` = "every check passes").  When
+    the buffer passes those checks (in particular for any `len` at least `req …`, the largest offset a check
+    asks for) the result is exactly `OPUS_BAD_ARG`.  What was written before the error stays inside the
+    buffer: the write log of the run has at most `len` bytes. -/
+theorem generate_bad_len (dry : Bool) (len : Int) (exts : Array Ext) (nbF : Nat) (pad : Bool) (hl : 0 ≤ len)
+    (hnf : nbF ≤ 48) (hv : AllIF exts nbF) (hD : ExtsOk exts)
+    (hB : ∃ (j : Nat) (e : Ext), exts[j]? = some e ∧ ¬ LenOk e) :
+    generate dry len exts nbF pad =
+      (if needsPass len 0 (genOps exts nbF).ops then .err .badArg else .err .bufferTooSmall) ∧
+    (req (genOps exts nbF).ops ≤ len → generate dry len exts nbF pad = .err .badArg) ∧
+    (∀ out, generate dry len exts nbF pad ≠ .ok out) ∧
+    ((runOpsLog dry len (genOps exts nbF).ops #[]).size : Int) ≤ len := by
+  obtain ⟨h1, h2⟩ := generate_badLen dry len exts nbF pad hl hnf hv hD hB
+  refine ⟨h1, h2, ?_, generate_log_within dry len exts nbF hD hl⟩
+  intro out ho
+  rw [h1] at ho
+  split at ho <;> cases ho
+
 /-- **generate_parse (full round trip, repeat mechanism included).**  For EVERY array of valid extensions
     (IDs 3..127, frames < nb_frames ≤ 48, short IDs with 0–1 payload bytes, long IDs with any payload, any
     array order, any repeat-eligible pattern) and every sufficiently large buffer: `generate` succeeds;
@@ -216,6 +239,22 @@ example : resSize (generate true 1000 exExts 2 false) = .ok 270 := by decide +ke
 example : resSize (generate false 270 exExts 2 true) = .ok 270 := by decide +kernel
 example : generate false 269 exExts 2 false = .err .bufferTooSmall := by decide +kernel
 example : BadIdFrame 2 { id := 2, frame := 0, data := [], len := 0 } := by unfold BadIdFrame; decide
+
+/-- An inadmissible length in a position the generator would emit inside a repeat block (frame 1 repeats the
+    long extension of frame 0), and one on a short ID in the first frame. -/
+def exBadRep : Array Ext :=
+  #[{ id := 40, frame := 0, data := [1], len := 1 }, { id := 40, frame := 1, data := [], len := -1 }]
+def exBadShort : Array Ext :=
+  #[{ id := 5, frame := 1, data := [1], len := 1 }, { id := 5, frame := 0, data := [1, 2], len := 2 }]
+example : AllIF exBadRep 2 ∧ ExtsOk exBadRep ∧ ∃ (j : Nat) (e : Ext), exBadRep[j]? = some e ∧ ¬ LenOk e :=
+  ⟨allIF_of_all _ _ (by decide +kernel), extsOk_of_all _ (by decide +kernel), 1, _, rfl, by decide⟩
+example : AllIF exBadShort 2 ∧ ExtsOk exBadShort ∧ ∃ (j : Nat) (e : Ext), exBadShort[j]? = some e ∧ ¬ LenOk e :=
+  ⟨allIF_of_all _ _ (by decide +kernel), extsOk_of_all _ (by decide +kernel), 1, _, rfl, by decide⟩
+example : generate true 100 exBadRep 2 false = .err .badArg := by decide +kernel
+example : generate false 100 exBadShort 2 true = .err .badArg := by decide +kernel
+example : req (genOps exBadRep 2).ops = 4 := by decide +kernel
+example : generate false 3 exBadRep 2 false = .err .bufferTooSmall := by decide +kernel
+example : generate false 4 exBadRep 2 false = .err .badArg := by decide +kernel
 
 /-- Unsorted frames, three frames with the last one empty (so nothing is repeat-eligible), a 300-byte
     payload (two lacing bytes) and a long extension in last position (`L = 0` form). -/
